@@ -331,13 +331,51 @@ func swapInGapsNs(seq []byte) []byte {
 // 	return header, nil
 // }
 
+// lineEnded makes sure the stream it wraps ends in a newline character. The sam reader only returns
+// lines that are terminated: the last record of a file whose final line is not followed by a newline
+// would otherwise be dropped without an error
+type lineEnded struct {
+	r       io.Reader
+	last    byte
+	any     bool
+	eof     bool
+	pending bool
+}
+
+func (l *lineEnded) Read(p []byte) (int, error) {
+	if len(p) == 0 {
+		return 0, nil
+	}
+	if l.eof {
+		if l.pending {
+			l.pending = false
+			p[0] = '\n'
+			return 1, nil
+		}
+		return 0, io.EOF
+	}
+	n, err := l.r.Read(p)
+	if n > 0 {
+		l.last, l.any = p[n-1], true
+	}
+	if err == io.EOF {
+		l.eof = true
+		l.pending = l.any && l.last != '\n'
+		if n > 0 {
+			return n, nil
+		}
+		return l.Read(p)
+	}
+	return n, err
+}
+
 // groupSamRecords yields blocks of sam records that correspond to the same query
 // sequence (to a channel)
 func groupSamRecords(sam io.Reader, cHeader chan biogosam.Header, chnl chan samRecords, cdone chan bool, cerr chan error) {
 
 	var err error
 
-	s, err := biogosam.NewReader(sam)
+	s, err := biogosam.NewReader(&lineEnded{r: sam})
 	if err != nil {
 		cerr <- err
 		return
